@@ -30,6 +30,8 @@ pub struct Pert {
     /// != 0: the files' modification times are dealt out afresh (only when no command of the
     /// scenario asks for `-m`, where they are input)
     pub mtime_seed: u64,
+    /// a long stale file sits at every `-o` path before the commands run
+    pub stale_out: bool,
 }
 
 #[derive(Clone, Debug)]
@@ -294,11 +296,12 @@ fn gen_pert(r: &mut Rng, nsteps: usize, uses_now: bool, with_m_flag: bool, dir_o
     let noise = r.chance(1, 3);
     let same_thread = r.chance(1, 2);
     let mtime_seed = if !with_m_flag && r.chance(1, 3) { r.next() | 1 } else { 0 };
-    Pert { sim, env, cwd, heap_seed, order, noise, same_thread, mtime_seed }
+    let stale_out = r.chance(1, 3);
+    Pert { sim, env, cwd, heap_seed, order, noise, same_thread, mtime_seed, stale_out }
 }
 
 fn pert_to_json(p: &Pert) -> Value {
-    json!({"sim": serde_json::to_value(&p.sim).unwrap(), "env": p.env, "cwd": p.cwd, "heap_seed": p.heap_seed, "order": p.order, "noise": p.noise, "same_thread": p.same_thread, "mtime_seed": p.mtime_seed})
+    json!({"sim": serde_json::to_value(&p.sim).unwrap(), "env": p.env, "cwd": p.cwd, "heap_seed": p.heap_seed, "order": p.order, "noise": p.noise, "same_thread": p.same_thread, "mtime_seed": p.mtime_seed, "stale_out": p.stale_out})
 }
 fn pert_from_json(v: &Value) -> Option<Pert> {
     Some(Pert {
@@ -310,6 +313,7 @@ fn pert_from_json(v: &Value) -> Option<Pert> {
         noise: v.get("noise")?.as_bool()?,
         same_thread: v.get("same_thread").and_then(|b| b.as_bool()).unwrap_or(false),
         mtime_seed: v.get("mtime_seed").and_then(|b| b.as_u64()).unwrap_or(0),
+        stale_out: v.get("stale_out").and_then(|b| b.as_bool()).unwrap_or(false),
     })
 }
 
@@ -445,6 +449,7 @@ impl C05 {
         req.cwd = p.cwd.as_ref().map(|c| if let Some(rest) = c.strip_prefix("@/") { format!("{}{}", w.root, rest) } else { c.clone() });
         req.heap_seed = p.heap_seed;
         req.same_thread = p.same_thread;
+        req.stale_out = p.stale_out;
         let mut steps = Vec::new();
         if p.noise {
             steps.extend(noise_steps(&w.root));
@@ -557,6 +562,9 @@ impl C05 {
         if p.mtime_seed != 0 {
             d.push("mtimes");
         }
+        if p.stale_out {
+            d.push("stale-output-file");
+        }
         if !nsteps_once || p.noise {
             d.push("history");
         }
@@ -620,6 +628,7 @@ impl C05 {
         let _ = try_p!(Pert { cwd: None, ..p.clone() });
         let _ = try_p!(Pert { heap_seed: 0, ..p.clone() });
         let _ = try_p!(Pert { mtime_seed: 0, ..p.clone() });
+        let _ = try_p!(Pert { stale_out: false, ..p.clone() });
         let _ = try_p!(Pert { sim: SimSpec { entropy_seed: calm.entropy_seed, ..p.sim.clone() }, ..p.clone() });
         // 3b. random fault plan -> explicit script of the events that fired, then drop events
         if let FaultSpec::Random { .. } = p.sim.faults {
